@@ -125,7 +125,7 @@ def helgrind(run_, lines, seed):
 
 def run(tier):
     run_ = common.Run(PID, tier, "exploration")
-    rt.prepare([FL] + (["opt"] if tier == "thorough" else []))
+    rt.prepare([FL, "opt"])
     path = rt.PATHS["vw-" + FL]
     lines = corpus(run_.seed)
     # every method must be present in the corpus with a request that succeeds
@@ -151,6 +151,22 @@ def run(tier):
     # runs are themselves multi-threaded: keep a few side by side only
     for acc in pool.pmap(do_run, work, nproc=3):
         run_.merge(acc)
+    # the same per-method hammer on the -O2 build without TSan: thousands of overlapping calls per method, judged
+    # by result comparison only - shared state inside uninstrumented libc (l64a(), strtok()...) is invisible to a
+    # race detector but not to the sequential table
+    opt_path = rt.PATHS["vw-opt"]
+    owork = []
+    for mi, m in enumerate(gen.METHODS):
+        costs = []
+        for ln in lines:
+            t = ln.split()
+            if t[1] == "c" and int(t[2]) == mi:
+                costs.append(gen.cost_units(bytes.fromhex(t[4]) if t[4] not in (".", "-") else b"", 20))
+        avg = max(1.0, sum(costs) / max(1, len(costs)))
+        iters = int(min(3000, max(40, (250000 if tier == "quick" else 1500000) / avg)))
+        owork.append((opt_path, lines, 8, iters, run_.seed * 31 + mi, "opt-hammer", mi))
+    for acc in pool.pmap(do_run, owork, nproc=2):
+        run_.merge(acc)
     # positive control
     res, end, err = one_run(path, lines, 2, 400, run_.seed, 2)
     ctrl = len(tsan_reports(err))
@@ -167,7 +183,7 @@ def run(tier):
                 "runs (fresh process, one method, expectations computed after the threads ran so that first use is "
                 "concurrent); distinct = (run kind, method, thread count)" % len(lines),
         "runs": int(a.n.get("runs", 0)),
-        "runs_by_kind": {k: int(a.n.get("runs_" + k, 0)) for k in ("mix", "hammer", "cold")},
+        "runs_by_kind": {k: int(a.n.get("runs_" + k, 0)) for k in ("mix", "hammer", "cold", "opt-hammer")},
         "overlapping_cross_thread_call_pairs": int(a.n.get("overlapping_call_pairs", 0)),
         "distinct_method_pairs_overlapped_per_run": sorted(a.sets.get("mpairs", ())),
         "tsan_reports_with_library_frames": int(a.n.get("tsan_reports", 0)),
